@@ -1219,6 +1219,10 @@ def gen_c19(rng, t):
             r = rng.below(10)
             lab = rng.choice([L6A, L6A, L3A, "B", "R", L6B, L3Z, L6N])
             pl = rng.range(0, 60)
+            if rng.chance(0.08) and lab not in ("B", "R"):
+                # a call refused because label and extension chain alone exceed the GSE length: it must leave no trace in the next packet
+                c.add("EEXT g3.1 %d 2048 %s %d 1 %s" % (rng.below(256), lab, rng.choice([4300, 5000]), exts_tok([(0x0009, bytes(rng.range(4091, 4100)))])),
+                      "PEEKL -", "DECAPN -", "DPROVBACK")
             if r < 5:
                 c.add("ENCAP %s %d %d %s %d 1" % (pdu_tok(rng, pl), rng.below(256), rng.choice([2048, 0xFFFF]), lab, rng.choice([100, rng.range(7, 40)])))
             elif r < 7:
@@ -1258,6 +1262,9 @@ def orc_c19(case, obs):
                 # what decap associates with the packet (next op is DECAPN of the same packet)
                 nxt = obs[i + 1] if i + 1 < len(obs) else ""
                 w, d = kv(nxt)
+                if p.lt == 3 and lt[4] not in ("R", "B") and w[:1] == ["ok"] and d.get("label") not in (None, lt[4]):
+                    # every packet of these cases reaches the receiver in order: a replaced label stands for the label passed
+                    bad.append("peek announces a re-used label for a packet sent with %s, decap associates %s" % (lt[4], d.get("label")))
                 if w[:1] == ["ok"] and p.lt != 3 and d.get("label") not in (None, p.label):
                     bad.append("peek label %s, decap label %s" % (p.label, d.get("label")))
                 if w[:1] == ["err"] and len(w) > 1 and not w[1].startswith(("Memory", "InvalidLabel")) and p.lt != 3 and not ob.startswith("err"):
